@@ -89,11 +89,58 @@ type stateSite struct {
 	from, to string // constant names ("" = not a constant)
 }
 
+// transitionHelper recognises a function that IS one lifecycle transition: its body makes
+// exactly one state.Transition(from, to) call (constants), no Set, and every return yields
+// that call's ok result. A call to such a helper is treated as the transition itself (same
+// site table entry for the caller, same success/failure facts), so extracting
+// "acquireLocalLeaveLock()" does not change a verdict.
+type transSummary struct{ from, to string }
+
+func transitionHelper(c *Ctx, o *types.Func) (transSummary, bool) {
+	if o == nil {
+		return transSummary{}, false
+	}
+	h := c.FnOfObj(o)
+	if h == nil || h.Type.Results == nil || len(h.Type.Results.List) != 1 || len(h.Type.Results.List[0].Names) > 1 {
+		return transSummary{}, false
+	}
+	if b, ok := h.Info.Types[h.Type.Results.List[0].Type].Type.Underlying().(*types.Basic); !ok || b.Kind() != types.Bool {
+		return transSummary{}, false
+	}
+	tr := h.CallsTo(true, "chord.nodeState.Transition")
+	if len(tr) != 1 || len(h.CallsTo(true, "chord.nodeState.Set")) != 0 || h.enclosing(tr[0]) != h {
+		return transSummary{}, false
+	}
+	rets := h.Returns()
+	if len(rets) == 0 {
+		return transSummary{}, false
+	}
+	for _, r := range rets {
+		if len(r.Results) != 1 || !strings.HasSuffix(h.Prov(r.Results[0]), ".state.Transition()#1") {
+			return transSummary{}, false
+		}
+	}
+	from, to := constName(h, tr[0].Args[0]), constName(h, tr[0].Args[1])
+	if from == "" || to == "" {
+		return transSummary{}, false
+	}
+	return transSummary{from, to}, true
+}
+
 func stateSites(c *Ctx) []*stateSite {
 	var out []*stateSite
 	for _, fn := range c.AllFuncs("chord") {
 		if recvName(fn.Decl) == "nodeState" {
 			continue
+		}
+		if _, isHelper := transitionHelper(c, fn.Obj); isHelper {
+			continue // its single transition is accounted for at its call sites
+		}
+		for _, call := range fn.Calls(true, func(call *ast.CallExpr) bool { return true }) {
+			g := fn.enclosing(call)
+			if sum, ok := transitionHelper(c, g.Callee(call)); ok {
+				out = append(out, &stateSite{fn: fn, g: g, call: call, kind: "Transition", from: sum.from, to: sum.to})
+			}
 		}
 		for _, call := range fn.CallsTo(true, "chord.nodeState.Transition", "chord.nodeState.Set") {
 			g := fn.enclosing(call)
@@ -118,10 +165,16 @@ func (s *stateSite) key() string {
 // hasTransition: fact "Transition(from,to) succeeded" (ok result true) holds.
 func hasTransition(g *Fn, fs *FactSet, from, to string, truth bool) bool {
 	return fs.Has(func(fa *Fact) bool {
-		if fa.Call == nil || !g.IsCall(fa.Call, "chord.nodeState.Transition") || len(fa.Call.Args) != 2 {
+		if fa.Call == nil {
 			return false
 		}
 		if (truth && fa.Kind != FTrue) || (!truth && fa.Kind != FFalse) {
+			return false
+		}
+		if sum, ok := transitionHelper(g.C, g.Callee(fa.Call)); ok {
+			return sum.from == from && sum.to == to
+		}
+		if !g.IsCall(fa.Call, "chord.nodeState.Transition") || len(fa.Call.Args) != 2 {
 			return false
 		}
 		return constName(g, fa.Call.Args[0]) == from && constName(g, fa.Call.Args[1]) == to
